@@ -1136,3 +1136,38 @@ def corpus_program():
             if not build(text(), extra_files=LOADED, limit=10.0).ok:
                 del slots[slot][-len(add):]
     return text()
+
+
+MOOT_NAMES = ["m1", "m2", "m3", "m4"]
+CLONE_EDGES = ("mine", "tag", "rear")
+
+
+def gen_clone_graphs(n, kinds=("mine", "tag"), roots=("first", "all")):
+    """Every directed graph of clone edges over n moot framers (self-loops and cycles included): each ordered
+    pair (Mi, Mj) carries no edge or one edge of `kinds` - `aux Mj as mine`, `aux Mj as <tag>` or
+    `rear Mj as mine be aux in frame b` written in frame a of Mi - reached from one active framer that clones
+    the first moot (`first`) or every moot (`all`).  Yields (label, script)."""
+    names = MOOT_NAMES[:n]
+    opts = (None,) + tuple(kinds)
+    for root in roots:
+        targets = names[:1] if root == "first" else names
+        for edges in itertools.product(opts, repeat=n * n):
+            lines = ["house h", "framer root be active first r0", "frame r0"]
+            lines += ["  aux %s as mine" % t for t in targets]
+            label = ["root->" + ",".join(targets)]
+            for i, mi in enumerate(names):
+                lines += ["framer %s be moot first a" % mi, "frame a"]
+                lab = []
+                for j, mj in enumerate(names):
+                    e = edges[i * n + j]
+                    if e == "mine":
+                        lines.append("  aux %s as mine" % mj)
+                    elif e == "tag":
+                        lines.append("  aux %s as c%d%d" % (mj, i + 1, j + 1))
+                    elif e == "rear":
+                        lines.append("  rear %s as mine be aux in frame b" % mj)
+                    if e:
+                        lab.append("%s %s" % (e, mj))
+                lines.append("frame b")
+                label.append("%s: %s" % (mi, ", ".join(lab) if lab else "-"))
+            yield " | ".join(label), "\n".join(lines) + "\n"
